@@ -54,8 +54,22 @@ extern "C" void __sanitizer_free_hook(const volatile void * p)
 {
    if ((g_measure)&&(p)&&(__sanitizer_get_allocated_size)) {const size_t n = __sanitizer_get_allocated_size(p); g_cur = (g_cur > n) ? (g_cur - n) : 0;}
 }
-static void MeasureOn()  {g_cur = g_peak = g_cum = 0; g_measure = true;}
-static void MeasureOff() {g_measure = false;}
+// A request above ASAN_OPTIONS max_allocation_size_mb fails at once (malloc returns NULL, no hook); the runtime says so on stderr
+// ("WARNING: AddressSanitizer failed to allocate 0x... bytes").  stderr is a file of this harness: the requests are read back and counted.
+static int g_errfd = -1; static off_t g_errpos = 0;
+static size_t FailedAllocations()
+{
+   if (g_errfd < 0) return 0;
+   const off_t end = lseek(g_errfd, 0, SEEK_END); if (end <= g_errpos) return 0;
+   std::string t((size_t) muscleMin((off_t) 65536, end - g_errpos), '\0');
+   const ssize_t n = pread(g_errfd, &t[0], t.size(), g_errpos); g_errpos = end; if (n <= 0) return 0;
+   t.resize((size_t) n);
+   size_t sum = 0, at = 0; static const char * key = "failed to allocate 0x";
+   while((at = t.find(key, at)) != std::string::npos) {at += strlen(key); sum += (size_t) strtoull(t.c_str()+at, NULL, 16);}
+   return sum;
+}
+static void MeasureOn()  {(void) FailedAllocations(); g_cur = g_peak = g_cum = 0; g_measure = true;}
+static void MeasureOff() {g_measure = false; const size_t f = FailedAllocations(); g_peak += f; g_cum += f;}
 static const size_t ALLOC_K = 64, ALLOC_C = 65536;
 static size_t g_worstPeak = 0, g_worstPeakN = 0; static double g_worstRatio = 0.0;
 
@@ -116,6 +130,7 @@ struct Case
 };
 static std::map<int, std::string> g_baseMsg;      // base index -> valid flattened Message
 static std::map<int, std::string> g_baseCur[5];   // per encoding: the bytes of the current base (the `base` record precedes its mutants)
+static std::map<int, int> g_baseDl[5];             // per encoding: Messages the valid base hands over
 static int EncIdx(const std::string & e) {return (e == "msg") ? 0 : (e == "tmpl") ? 1 : (e == "frame") ? 2 : (e == "tun") ? 3 : 4;}
 
 // ------------------------------------------------------------------------------------------------ scripted byte stream / packets
@@ -562,13 +577,24 @@ static void TemplatingGateway(const Case & c, int mode)
 }
 
 // packets of the specification fed to the packet tunnels directly
+static bool ChunksComeFrom(const Pumped & p, const std::string & packet)      // without a slave every chunk is handed over as raw data: it must be bytes of the packet
+{
+   for (size_t i=0; i<p.msgs.size(); i++)
+   {
+      Message m; if (m.UnflattenFromBytes((const uint8 *) p.msgs[i].data(), (uint32) p.msgs[i].size()).IsError()) continue;
+      const void * d; uint32 n;
+      for (int32 j=0; m.FindData(PR_NAME_DATA_CHUNKS, B_RAW_TYPE, j, &d, &n).IsOK(); j++) if ((n > 0)&&(packet.find(std::string((const char *) d, n)) == std::string::npos)) return false;
+   }
+   return true;
+}
 static void TunnelPackets(const Case & c, bool mini)
 {
+   const std::string & valid = g_baseCur[mini ? 4 : 3][c.base];
    for (int cfg=0; cfg<4; cfg++)
    {
       const char * nm = mini ? "MiniPacketTunnelIOGateway" : "PacketTunnelIOGateway";
-      // a declared total size of 16 MB .. 4 GB makes a tunnel without SetMaxIncomingMessageSize() allocate that much (by design); it costs
-      // ~0.3 s each under AddressSanitizer, so only the first base does it, and only in the plain configuration
+      // a declared total size of 16 MB .. 4 GB makes a tunnel without SetMaxIncomingMessageSize() allocate that much (by design); only the
+      // first base does it, and only in the plain configuration
       if ((!mini)&&(c.wk == "totallen")&&(c.w.size() == 4)&&(R32(c.w, 0) >= (1u<<24))&&(cfg != 2)&&(!((cfg == 0)&&(c.base == 1)))) continue;
       Arm(nm);
       AbstractMessageIOGatewayRef slave; if (cfg != 3) slave.SetRef(new MessageIOGateway);
@@ -577,17 +603,21 @@ static void TunnelPackets(const Case & c, bool mini)
            else {PacketTunnelIOGateway * g = new PacketTunnelIOGateway(slave, 1400); if (cfg == 1) g->SetAllowMiscIncomingData(true); if (cfg == 2) {g->SetMaxIncomingMessageSize(4096); g->SetSourceExclusionID(77);} gw.SetRef(g);}
       gw()->SetDataIO(DataIORef(io));
       io->in.push_back(c.b);
-      if (c.v != "A") io->in.push_back(g_baseCur[mini ? 4 : 3][c.base]);     // followed by the valid packet: the receiver must still work
       const Pumped p = Pump(*gw(), NULL, io);
-      if (cfg == 0)
+      const int got = (int) p.msgs.size();
+      if ((cfg == 0)&&(c.v == "A")&&(got != c.dl)) {char t[200]; snprintf(t, sizeof(t), "%s: a valid packet handed over %d Messages, %d expected", nm, got, c.dl); Note("violations", t, c.b);}
+      // refused as a whole: nothing comes out (with SetAllowMiscIncomingData a packet that is not a tunnel packet is passed on as it is)
+      if ((cfg != 1)&&(c.v == "R")&&(got > 0)) {char t[200]; snprintf(t, sizeof(t), "%s: %d Messages handed over for a packet that must be refused (%s)", nm, got, c.why.c_str()); Note("violations", t, c.b);}
+      if ((cfg == 3)&&(!ChunksComeFrom(p, c.b))) Note("violations", std::string(nm) + " (no slave) handed over data that is not part of the packet", c.b);
+      if ((c.v != "A")&&(!valid.empty()))
       {
-         const int got = (int) p.msgs.size();
-         if ((c.v == "A")&&(got != c.dl)) {char t[200]; snprintf(t, sizeof(t), "%s: a valid packet handed over %d Messages, %d expected", nm, got, c.dl); Note("violations", t, c.b);}
-      }
-      if ((cfg == 0)&&(c.v == "R")&&(c.why != "fragment-header-incomplete")&&(c.why != "packet-header-incomplete"))
-      {
-         // the hostile packet hands over nothing; the valid one behind it is not disturbed by a packet that was refused as a whole
-         const std::string & vb = g_baseCur[mini ? 4 : 3][c.base]; (void) vb;
+         // followed by the valid packet.  The mini tunnel keeps no state between packets: it must hand over what the valid packet carries.
+         // (PacketTunnelIOGateway may drop it: a hostile fragment with the same message id legitimately leaves a half-received Message behind.)
+         io->in.push_back(valid);
+         const Pumped q = Pump(*gw(), NULL, io);
+         const Case * bc = NULL; (void) bc;
+         if ((mini)&&(cfg == 0)&&(g_baseDl[4].find(c.base) != g_baseDl[4].end())&&((int) q.msgs.size() != g_baseDl[4][c.base]))
+            {char t[200]; snprintf(t, sizeof(t), "%s: after a hostile packet the valid packet hands over %d Messages, %d expected", nm, (int) q.msgs.size(), g_baseDl[4][c.base]); Note("violations", t, c.b);}
       }
       Disarm();
    }
@@ -598,7 +628,7 @@ static void RunCase(const Case & c, const std::string & tier)
 {
    g_caseDesc = c.Desc();
    const int e = EncIdx(c.enc);
-   if (c.k == "base") g_baseCur[e][c.base] = c.b;
+   if (c.k == "base") {g_baseCur[e][c.base] = c.b; g_baseDl[e][c.base] = c.dl;}
    const std::string & baseBytes = g_baseCur[e][c.base];
    const bool thorough = (tier == "thorough");
    const long long h = c.index;
@@ -677,6 +707,7 @@ static void Common(const char * report, const char * cursor)
    g_rep = fopen(report, "a"); if (g_rep == NULL) {fprintf(stderr, "cannot open %s\n", report); exit(2);}
    g_repfd = fileno(g_rep);
    if (cursor) g_curfd = open(cursor, O_WRONLY|O_CREAT, 0644);
+   {const std::string e = std::string(report) + ".err"; g_errfd = open(e.c_str(), O_RDWR|O_CREAT|O_APPEND, 0644); if (g_errfd >= 0) {g_errpos = lseek(g_errfd, 0, SEEK_END); (void) dup2(g_errfd, 2);}}
    signal(SIGALRM, OnAlarm);
    g_reuse = new Message; g_reuseT = new Message;
 }
@@ -821,7 +852,7 @@ int main(int argc, char ** argv)
       while(mj::ReadLine(fc, line))
       {
          Case c; if (!LoadCase(line, c)) {fprintf(stderr, "bad case line\n"); return 2;}
-         if (c.k == "base") g_baseCur[EncIdx(c.enc)][c.base] = c.b;      // also when skipped
+         if (c.k == "base") {g_baseCur[EncIdx(c.enc)][c.base] = c.b; g_baseDl[EncIdx(c.enc)][c.base] = c.dl;}      // also when skipped
          if (c.index < start) continue;
          SetCursor(c.index);
          RunCase(c, tier); n++;
